@@ -105,5 +105,20 @@ pub open spec fn length_header_len() -> usize { 18 }
 //@ensures P C15 the-encryptor-asserts-a-length-header-of-exactly-the-length-the-handler-reads
     r == length_header_len(),
 //@end
+// a ping is answered exactly when the pong it asks for fits a Lightning message: type (2) + length (2) + padding must stay within the 65535 bytes the transport carries (BOLT 1: ponglen < 65532); the encryptor refuses anything longer (u15, a debug assertion there), so answering a longer request would be a peer-triggered failure
+pub struct PingMsg { pub ponglen: u16 }
+//@extract lightning/src/ln/peer_handler.rs :: impl PeerManager :: fn do_handle_message_without_peer_lock
+//@slice R15
+    Message::Ping(msg) => { if $c:cond { let resp = msgs::Pong { byteslen: msg.ponglen };
+//@with
+    fn a_ping_is_answered(msg: &PingMsg) -> bool { $c }
+//@ret r
+//@ensures P C15 a-ping-is-answered-exactly-when-the-pong-it-asks-for-fits-a-lightning-message
+    r == (2 + 2 + msg.ponglen as int <= 65535),
+//@mutant ping_for_a_pong_one_byte_too_long_answered
+    if msg.ponglen < 65532 {
+//@with
+    if msg.ponglen <= 65532 {
+//@end
 }
 fn main() {}
